@@ -817,3 +817,75 @@ def _mkcirc(prop, name, misc, tiers):
 c01_circ_traversal_0 = _mkcirc('C01', 'c01_circ_traversal_0', 0, ('quick', 'thorough'))
 c01_circ_traversal_1 = _mkcirc('C01', 'c01_circ_traversal_1', 1, ('thorough',))
 c01_circ_traversal_2 = _mkcirc('C01', 'c01_circ_traversal_2', 2, ('thorough',))
+
+
+# --------------------------------------------------------------------------
+# C03 end to end on the fixed transcripts: every (peptide, header entry) pair, symbolic limits
+# --------------------------------------------------------------------------
+def _headers(case, misc, lo, hi):
+    from crosshair.tracers import NoTracing
+    with NoTracing():
+        pg = copy.deepcopy(case.graph)
+    pg.cleavage_params = CleavageParams(enzyme='trypsin', miscleavage=misc, min_length=lo, max_length=hi, min_mw=0.,
+                                        min_nodes_to_collapse=case.collapse[0], naa_to_collapse=case.collapse[1])
+    res = pg.call_variant_peptides(denylist=case.deny, truncate_sec=False, w2f=False,
+                                   check_external_variants=True, check_orf=False)
+    by_id = {}
+    for p, r, a in case.vars:
+        typ = 'SNV' if len(r) == len(a) == 1 else 'INDEL'
+        by_id[f'{typ}-{p + 1}-{r}-{a}'] = (p, r, a)
+    seen = set()
+    n = 0
+    for seq, labels in res.items():
+        for lab in labels:
+            n += 1
+            if lab.label in seen:
+                return -4          # a header entry string occurs twice
+            seen.add(lab.label)
+            parts = lab.label.split('|')
+            if parts[0] != 'T1' or not parts[-1].isdigit():
+                return -1          # backbone / index malformed
+            ids = parts[1:-1]
+            if not ids or any(i not in by_id for i in ids) or len(set(ids)) != len(ids):
+                return -2          # names a variant that was not supplied (or none, or one twice)
+            chosen = sorted((by_id[i] for i in ids), reverse=True)
+            s = case.tx
+            ok = True
+            for k in range(len(chosen) - 1):
+                if chosen[k + 1][0] + len(chosen[k + 1][1]) > chosen[k][0]:
+                    ok = False     # named variants overlap: cannot be applied together
+            if not ok:
+                return -3
+            for p, r, a in chosen:
+                s = s[:p] + a + s[p + len(r):]
+            prods = {q for q, k in _digest(_translate(s[len(UTR5):])) if k <= misc}
+            if str(seq) not in prods:
+                return -3          # applying exactly the named variants does not yield the peptide
+    return OK if n else SKIP
+
+
+CODES_H = {-1: 'header entry does not start with the backbone or end with its index',
+           -2: 'header entry names no variant, a variant that was not supplied, or one variant twice',
+           -3: 'applying exactly the named variants to the transcript does not give a translation in which the peptide is a '
+               'digestion product within the miscleavage limit',
+           -4: 'a header entry string (with index) occurs twice in the output'}
+
+
+def _mkh(name, case, what, misc, tiers):
+    def f(lo: int, hi: int) -> int:
+        """
+        pre: 1 <= lo
+        post: _ >= 0
+        """
+        return _headers(case, misc, lo, hi)
+    f.__name__ = f.__qualname__ = name
+    return cond('C03', bounds='ONE concrete transcript (%s), every (peptide, header entry) pair of the traversal output; '
+                'miscleavage = %s, min_length and max_length UNBOUNDED symbolic integers' % (what, misc), encodes=ENC,
+                stubs=STUBS, codes=CODES_H, timeout=900, tiers=tiers)(f)
+
+
+c03_headers_a1 = _mkh('c03_headers_a1', CASE_A, '2 SNVs', 1, ('quick', 'thorough'))
+c03_headers_b1 = _mkh('c03_headers_b1', CASE_B, 'site-removing SNV + in-frame deletion', 1, ('quick', 'thorough'))
+c03_headers_c1 = _mkh('c03_headers_c1', CASE_C, '3 SNVs in a pop-collapsed bubble', 1, ('quick', 'thorough'))
+c03_headers_a2 = _mkh('c03_headers_a2', CASE_A, '2 SNVs', 2, ('thorough',))
+c03_headers_c2 = _mkh('c03_headers_c2', CASE_C, '3 SNVs in a pop-collapsed bubble', 2, ('thorough',))
